@@ -13,6 +13,7 @@ import (
 	kemtypes "github.com/flant/shell-operator/pkg/kube_events_manager/types"
 	"github.com/flant/shell-operator/pkg/metric"
 	utils "github.com/flant/shell-operator/pkg/utils/labels"
+	"github.com/flant/shell-operator/pkg/utils/verifpoint"
 )
 
 type Monitor interface {
@@ -216,6 +217,8 @@ func (m *monitor) CreateInformers() error {
 				ctx, cancelForNs := context.WithCancel(m.ctx)
 				m.cancelForNs.Store(nsName, cancelForNs)
 
+				verifpoint.Hit("monitor.n1")
+
 				for _, informer := range varyingInformers {
 					informer.withContext(ctx)
 					if m.eventsEnabled {
@@ -304,6 +307,7 @@ func (m *monitor) EnableKubeEventCb() {
 			informer.enableKubeEventCb()
 		}
 	})
+	verifpoint.Hit("monitor.e1")
 	// Enable events for future VaryingInformers.
 	m.eventsEnabled = true
 }
